@@ -315,7 +315,7 @@ class Gen:
 
 # ----------------------------------------------------------------------------- execution / comparison
 
-OPTS = {"bounds": False, "range_oracle": False}
+OPTS = {"bounds": False, "range_oracle": False, "order_groups": False}
 
 def expand_dyn(x, dyn):
     """what a reference to a dynamic block denotes for the model: the class's block of that name.
@@ -522,6 +522,7 @@ def compare_call(S, scn, ci, c, m):
         if mb != ib and not m["boundsErr"]:
             bad = sorted(k for k in ib if mb.get(k) != ib[k])
             cf("bounds", {k: mb.get(k) for k in bad}, {k: ib[k] for k in bad})
+    if (OPTS["bounds"] and "bounds" in c) or OPTS["order_groups"]:
         for k, (a, b) in enumerate(zip(mr, ir)):
             rec = b["rec"]
             if rec is None or not rec["shape_ok"] or rec["answers"][0] == "unsat":
@@ -529,7 +530,7 @@ def compare_call(S, scn, ci, c, m):
             impl_groups = [[S.sexp(t) for t in g] for g in rec["groups"]]
             mod_groups = [g for g in a["cands"]]
             # a group without candidates still ends with a Sat(); the model lists non-empty field groups only
-            if [g for g in impl_groups if g] != [g for g in mod_groups if g]:
+            if OPTS["bounds"] and [g for g in impl_groups if g] != [g for g in mod_groups if g]:
                 cf("randset[%d].swizzle-candidates" % k, mod_groups, impl_groups)
             if b["rs"]["order"] != a.get("order"):
                 cf("randset[%d].order-groups" % k, a.get("order"), b["rs"]["order"])
@@ -603,7 +604,7 @@ def compare_call(S, scn, ci, c, m):
                             of("dist-free-field-did-not-take-drawn-value", {"field": fname, "requested": int(mm.group(1)), "returned": got},
                                "the drawn value is returned when nothing else constrains the field")
                     st["dist_free_sets"] = st.get("dist_free_sets", 0) + 1
-        if c["outcome"] == "ok":
+        if c["outcome"] == "ok" and OPTS["bounds"]:
             if not m["drawsOkAll"] or m["drawsLeft"] != 0:
                 cf("draws", {"ok": m["drawsOkAll"], "left": m["drawsLeft"]}, len(c.get("draws", [])))
             for nm, v in m["unconVals"]:
